@@ -7,6 +7,7 @@ import Lomond.Model.Utf8
 import Lomond.Model.Frame
 import Lomond.Model.Http
 import Lomond.Model.Core
+import Lomond.Model.Handshake
 import Lomond.Model.Driver
 
 open Lomond
